@@ -175,6 +175,7 @@ impl Request {
     }
 }
 
+#[verifier::rlimit(60)]
 //@fn src/request.rs new_request ret res props C01,C03,C09,C11,C13,C14,C15,C16,C18
 //@spec
     ensures
